@@ -2,6 +2,7 @@ pub mod c01;
 pub mod c02;
 pub mod c03;
 pub mod c05;
+pub mod c06;
 pub mod common;
 pub mod c04;
 
@@ -13,6 +14,7 @@ pub fn run(cfg: &Cfg, rep: &mut Report) -> bool {
     "C02" => c02::run(cfg, rep),
     "C03" => c03::run(cfg, rep),
     "C05" => c05::run(cfg, rep),
+    "C06" => c06::run(cfg, rep),
     "C04" => c04::run(cfg, rep),
     _ => return false,
   }
